@@ -4,3 +4,9 @@ __attribute__((weak)) void upipe_verif_point(int kind, const volatile void *addr
     (void)kind;
     (void)addr;
 }
+/* harnesses that link simfd.c without vsched: descriptor operations are plain calls */
+__attribute__((weak)) void vs_point(int kind, const volatile void *addr)
+{
+    (void)kind;
+    (void)addr;
+}
